@@ -3712,7 +3712,12 @@ def loopir_tie(ctx, names):
         rng = np.random.default_rng([int(ctx.seed) % (1 << 32), int(hashlib.md5(nm.encode()).hexdigest()[:8], 16)])
         q, t = EXACT_BUDGET[nm]
         if nm in VEC_GENERATORS:
-            c = VEC_GENERATORS[nm](rng, ctx.q(q, t), ctx.q(8, 40), ctx.q(*FLOAT_BUDGET[nm]))
+            try:
+                c = VEC_GENERATORS[nm](rng, ctx.q(q, t), ctx.q(8, 40), ctx.q(*FLOAT_BUDGET[nm]))
+            except Exception:       # a changed implementation may make a generator's auxiliary computation fail: reported, the other kernels still run
+                import traceback
+                ctx.broken.append({'theorem': 'loopir: case generator of %s (exception)' % nm, 'where': '_loopir_vec.py', 'log': traceback.format_exc()[-2000:]})
+                continue
             ctx.count('loopir/%s/binary64' % nm, len(c.flt)); info[nm]['binary64_cases'] = len(c.flt)
             for m in c.flt_meta:
                 ctx.case(('loopir-f', nm, m['case']), nontrivial=True)
